@@ -138,3 +138,28 @@ func SpecTrieWord(t *Trie, w string) bool   { panic("abstract spec function") }
 //@     invariant only_unblocked_keys_survive: 0 - 1 <= rangeindex#2 && fresh(newArgs#1) && (forall j int :: 0 <= j && j < len(newArgs#1) ==> (exists i int :: 0 <= i && i <= rangeindex#2 && kept[i] && newArgs#1[j] == args[indexes[i]]))
 //@   loop 3:
 //@     invariant pairs_of_unblocked_keys_survive: 0 - 1 <= rangeindex#3 && fresh(newArgs#2) && len(newArgs#2) % 2 == 0 && (forall j int :: 0 <= j && 2 * j + 1 < len(newArgs#2) ==> (exists i int :: 0 <= i && i <= rangeindex#3 && kept[i] && newArgs#2[2 * j] == args[indexes[i]] && newArgs#2[2 * j + 1] == args[indexes[i] + 1]))
+
+// ---- registration of rules: only the filter's own fields change (the tries / range lists behind
+// them are built by code outside the deductive subset; what a registered prefix means is the
+// abstract view the Filter* contracts assume) ----
+//@ func RedisKeyFilter.InsertCmdBlackList(self, cmds, reset)
+//@   trusted frame: registers command names with the filter
+//@   modifies self.cmdBlackTrie
+//@ func RedisKeyFilter.InsertCmdWhiteList(self, cmds, reset)
+//@   trusted frame: registers command names with the filter
+//@   modifies self.cmdWhiteTrie
+//@ func RedisKeyFilter.InsertPrefixKeyBlackList(self, keys)
+//@   trusted frame: registers key prefixes with the filter
+//@   modifies self.prefixKeyBlackTrie
+//@ func RedisKeyFilter.InsertPrefixKeyWhiteList(self, keys)
+//@   trusted frame: registers key prefixes with the filter
+//@   modifies self.prefixKeyWhiteTrie
+//@ func RedisKeyFilter.InsertSlotWhiteList(self, slots)
+//@   trusted frame: registers slot ranges with the filter
+//@   modifies self.slotKeyWhiteList
+//@ func RedisKeyFilter.InsertSlotBlackList(self, slots)
+//@   trusted frame: registers slot ranges with the filter
+//@   modifies self.slotKeyBlackList
+//@ func RedisKeyFilter.InsertDbBlackList(self, dbs)
+//@   trusted frame: registers databases with the filter
+//@   modifies self.dbBlackList
